@@ -57,6 +57,9 @@ func TestMain(m *testing.M) {
 //	            preallocates at most 1024) at the top level or nested in a struct, a list or a
 //	            map; its announced count is inflated (N+1, 4N, 1000N, 2^26, 2^31-1) and the
 //	            allocation of the decode is measured against the bytes available
+//	bigstr    : Str describes a string / []byte of 65537, 70000 or 131073 bytes as top-level target, last
+//	            element of a top-level list, last field of a struct, or read through Reader.ReadString /
+//	            ReadBytes; the encoding is truncated at a set of offsets
 //	readerops : Ops (indices into readerOpNames) applied to a Reader of protocol P over Bytes
 type Case struct {
 	Kind    string             `json:"kind"`
@@ -69,7 +72,8 @@ type Case struct {
 	Trail   []byte             `json:"trail,omitempty"`
 	RK      int                `json:"rk,omitempty"`  // io.Reader implementation given to Decoder probes
 	Sel     int                `json:"sel,omitempty"` // fuzz: index into fuzzTargets
-	Big     *BigSpec           `json:"big,omitempty"` // bigcount: a container really holding more elements than the decoder preallocates
+	Str     *BigStr            `json:"str,omitempty"` // bigstr: a string / []byte longer than 64 KiB, truncated
+	Big     *tgen.BigSpec      `json:"big,omitempty"` // bigcount: a container really holding more elements than the decoder preallocates
 	Ops     []int              `json:"ops,omitempty"`
 	Bytes   []byte             `json:"bytes,omitempty"`
 }
@@ -303,6 +307,8 @@ func runProbes(req *Request, progress func(*ProbeInfo)) (resp *Response) {
 		e.fuzzCase()
 	case "bigcount":
 		e.bigCount()
+	case "bigstr":
+		e.bigStr()
 	default:
 		resp.Fail = &evid.Failure{Oracle: "harness", Observed: "unknown kind " + req.Case.Kind, Class: "harness"}
 	}
@@ -1102,7 +1108,7 @@ func knownClass(c *Case, pi *ProbeInfo, f *evid.Failure) string {
 			return "" // the listed defect is about counts the readers' range checks accept
 		}
 		return classAlloc
-	case (pi.Group == "prefix" || pi.Group == "insert-prefix") && (f.Class == "prefix-no-error" || f.Class == "prefix-wrong-error") && pi.N > 0 && shortReadPossible(c):
+	case (pi.Group == "prefix" || pi.Group == "insert-prefix" || pi.Group == "bigstr") && (f.Class == "prefix-no-error" || f.Class == "prefix-wrong-error") && pi.N > 0 && shortReadPossible(c):
 		return classShortRead
 	case f.Class == "hostile-size-accepted" && shortReadPossible(c):
 		// a count whose elements are fixed-width reads: at the end of the input every read "succeeds"
@@ -1177,20 +1183,19 @@ func genCase(t *rapid.T, o *tgen.Opts) Case {
 		c.Ops = rapid.SliceOfN(rapid.IntRange(0, len(readerOpNames)-1), 1, 12).Draw(t, "ops")
 		return c
 	}
-	if rapid.IntRange(0, 29).Draw(t, "big") == 0 {
+	if b := rapid.IntRange(0, 99).Draw(t, "big"); b == 37 || b == 61 || b == 83 { // mid-range values: ~1.6 % (rapid favours the bounds)
 		c.Kind = "bigcount"
-		b := BigSpec{
-			Container: rapid.SampledFrom([]string{"list", "list", "list", "set", "map"}).Draw(t, "bigc"),
-			N:         rapid.SampledFrom([]int{1025, 1025, 1100, 2048, 2049, 5000}).Draw(t, "bign"),
-			Nest:      rapid.SampledFrom([]string{"top", "top", "struct", "list", "map", "ptr-struct"}).Draw(t, "bignest"),
-		}
-		if b.Container == "list" {
-			b.Elem = rapid.SampledFrom([]string{"bool", "i8", "i16", "i32", "i64", "f64", "str", "struct"}).Draw(t, "bige")
-		} else {
-			b.Elem = rapid.SampledFrom([]string{"i16", "i32", "i64", "str"}).Draw(t, "bige") // keys: N distinct values
-			b.Val = rapid.SampledFrom([]string{"bool", "i64", "str"}).Draw(t, "bigv")
-		}
+		b := tgen.GenBigSpec(t)
 		c.Big = &b
+		return c
+	}
+	if b := rapid.IntRange(0, 99).Draw(t, "bigstr"); b == 23 || b == 71 { // ~1.1 %
+		c.Kind = "bigstr"
+		c.Str = &BigStr{
+			Size:  rapid.SampledFrom([]int{65537, 70000, 131073}).Draw(t, "strsize"),
+			Bytes: rapid.Bool().Draw(t, "strbytes"),
+			Where: rapid.SampledFrom([]string{"top", "list-last", "field-last", "reader", "top", "reader"}).Draw(t, "strwhere"),
+		}
 		return c
 	}
 	c.Kind = "target"
@@ -1287,6 +1292,9 @@ func apply(o outcome) {
 func caseLabels(c Case) {
 	p := thriftspec.Proto(c.P % 3).String()
 	evid.Label("case." + c.Kind + "." + p)
+	if c.Str != nil {
+		evid.Label(fmt.Sprintf("bigstr.%s.%d.bytes=%v", c.Str.Where, c.Str.Size, c.Str.Bytes))
+	}
 	if c.Big != nil {
 		evid.Label(fmt.Sprintf("bigcount.%s<%s>.%s", c.Big.Container, c.Big.Elem, c.Big.Nest))
 		evid.Label(fmt.Sprintf("bigcount.n=%d", c.Big.N))
